@@ -258,7 +258,7 @@ func (th *Thread) locals(i int) *SuObject {
 		}
 		if fr.shared != nil {
 			nsharedNames := len(fr.fn.Names) - int(fr.fn.Nstack)
-			for j, v := range fr.shared.values {
+			for j, v := range fr.sharedValues() {
 				if j >= nsharedNames {
 					continue
 				}
